@@ -28,14 +28,16 @@ TAG = "observations_tag"          # the ghost-tag leaf
 P_REPLAY_MAX = 100000             # replayed counterexamples use positions that fit int32 comfortably
 
 
-def spaces(stateful=True):
-    osp = Dict({"pos": Box(-1.0, 1.0, shape=(2,)), "tag": Discrete(7)})
+def spaces(stateful=True, obs="dict"):
+    # "tuple": a Tuple observation of two equally shaped components (the observation pytree is itself a 2-tuple, the shape that a
+    # fused (observation, successor) traversal can confuse with its own pairs)
+    osp = Dict({"pos": Box(-1.0, 1.0, shape=(2,)), "tag": Discrete(7)}) if obs == "dict" else Tuple((Discrete(7), Discrete(7)))
     asp = Tuple((Discrete(3), Box(-1.0, 1.0, shape=(1,))))
     return osp, asp, (UFPolState(jnp.zeros(1)) if stateful else None)
 
 
-def mkbuf(C, E=None, stateful=True):
-    osp, asp, st = spaces(stateful)
+def mkbuf(C, E=None, stateful=True, obs="dict"):
+    osp, asp, st = spaces(stateful, obs)
     if E is None:
         return ReplayBuffer(C, osp, asp, st)
     # the vectorised buffer exactly as AbstractOffPolicyAlgorithm.reset builds it: vmap of the constructor
@@ -49,12 +51,12 @@ def add_fn(rb, o, no, a, r, d, t, s, ns):
 ADD_ARGNAMES = ["buf", "o", "no", "a", "r", "d", "t", "s", "ns"]
 
 
-def trace_add(C, stateful=True):
-    osp, asp, st = spaces(stateful)
-    rb = mkbuf(C, stateful=stateful)
+def trace_add(C, stateful=True, obs="dict"):
+    osp, asp, st = spaces(stateful, obs)
+    rb = mkbuf(C, stateful=stateful, obs=obs)
     o, a = osp.canonical(), asp.canonical()
     return trace(add_fn, rb, o, o, a, jnp.array(0.0), jnp.array(False), jnp.array(False), st, st, argnames=ADD_ARGNAMES,
-                 label="ReplayBuffer.add" + ("" if stateful else "[stateless policy]"))
+                 label="ReplayBuffer.add" + ("" if stateful else "[stateless policy]") + ("" if obs == "dict" else "[Tuple observation]"))
 
 
 def row_name(leaf):
@@ -109,9 +111,10 @@ def same_value(got, exp):
 
 
 # ------------------------------------------------------------------------------------------------ add
-def sec_add(ck, C, validate, stateful=True):
-    tr = trace_add(C, stateful)
-    sfx = "" if stateful else ",stateless"
+def sec_add(ck, C, validate, stateful=True, obs="dict"):
+    tr = trace_add(C, stateful, obs)
+    sfx = ("" if stateful else ",stateless") + ("" if obs == "dict" else ",tuple_observation")
+    TAG = "observations_tag" if obs == "dict" else "observations_0"
     ck.encoded(tr)
     if validate:
         concrete.validate(ck, tr, n=2, seed=ck.seed)
@@ -464,6 +467,9 @@ def main():
             sec_machine_counter(ck, C)
     with ck.section("add@C=3,stateless"):
         sec_add(ck, 3, validate=False, stateful=False)        # policies without a state: the states / next_states fields are absent
+    for C in ([2] if not ck.thorough else [2, 3]):
+        with ck.section(f"add@C={C},tuple_observation"):
+            sec_add(ck, C, validate=False, obs="tuple")           # observation pytree = a 2-tuple of equally shaped leaves
     for i, (C, B) in enumerate(scal):
         with ck.section(f"sample@C={C},B={B}"):
             sec_sample(ck, C, None, B, validate=(i == 0), controls=(C, B) in ((3, 2), (4, 3)))
